@@ -53,7 +53,13 @@ fn hist<K: Raw>(ini: &str, ops: &str, other: &str) -> String {
     // the other route to the same string: from_bytes of the bases read back
     let bases: Vec<u8> = (0..K::k()).map(|i| x.get(i)).collect();
     let canon = K::from_bytes(&bases);
-    let oth = K::from_bytes(&digits(other));
+    // `other`: literal bases, or `W<m>`: the final string with its first and last m bases exchanged
+    let oth_bases: Vec<u8> = if let Some(m) = other.strip_prefix('W') {
+        let m: usize = m.parse::<usize>().unwrap().min(bases.len() / 2);
+        let n = bases.len();
+        let mut v = bases[n - m..].to_vec(); v.extend_from_slice(&bases[m..n - m]); v.extend_from_slice(&bases[..m]); v
+    } else { digits(other) };
+    let oth = K::from_bytes(&oth_bases);
     let cmpo = match x.cmp(&oth) {
         std::cmp::Ordering::Less => "lt",
         std::cmp::Ordering::Greater => "gt",
@@ -72,12 +78,13 @@ fn hist<K: Raw>(ini: &str, ops: &str, other: &str) -> String {
     fam.dedup();
     let pos = fam.binary_search(&x).map(|p| p as i64).unwrap_or(-1);
     format!(
-        "{}|eq={} hash={} cmpother={} eqother={} pos={} len={}",
+        "{}|eq={} hash={} cmpother={} eqother={} hashother={} pos={} len={}",
         trace.join(";"),
         (x == canon) as u8,
         (h(&x) == h(&canon)) as u8,
         cmpo,
         (x == oth) as u8,
+        (h(&x) == h(&oth)) as u8,
         pos,
         fam.len()
     )
@@ -130,6 +137,8 @@ pub fn gen(rng: &mut Rng, _tier: &str) -> String {
         });
     }
     // `other`: mostly a near neighbour of something reachable, sometimes random
-    let other = random_kmer_bases(rng, k);
-    format!("C11 {} hist {} {} {}", name, ini, if ops.is_empty() { "-".into() } else { ops.join(",") }, show_digits(&other))
+    // a fifth of the time the twin of the final string with its two ends exchanged (the ends as long as the part of a wide k-mer that
+    // lies in the other storage word, or half, or a few bases)
+    let other = if rng.chance(1, 5) { format!("W{}", *rng.pick(&[if k > 32 { k - 32 } else { k / 2 }, k / 2, 1, 8.min(k / 2), 16.min(k / 2)])) } else { show_digits(&random_kmer_bases(rng, k)) };
+    format!("C11 {} hist {} {} {}", name, ini, if ops.is_empty() { "-".into() } else { ops.join(",") }, other)
 }
